@@ -12,6 +12,12 @@
       are compared with the model's history (Model/RequestsRun.v).
 (iii) substitution: an EvaluateRequest handler answering a fixed value for one dataset, compared
       with the graph in which the dataset is replaced by the constant.
+      The target is also reached through the alternative constructors of its consumers: with_options /
+      with_default_options derivatives of the datasets that depend on it (single, chains of three, derivatives
+      used as dependencies themselves); the substituting handler recognises the target BY IDENTITY.  The same
+      graphs run under recording pass-through handlers (all four methods) with the clause: the body of a dataset
+      never runs without an EvaluateRequest for that dataset object (or a derivative of it) having reached the
+      handlers.
 (iv)  nesting: the recording / substituting handlers installed outside, inside or between the library's
       own context managers labrea.cache.disabled() / labrea.logging.disabled() (a user handler replaced by
       a library context entered inside it serves nothing: not installed, for the model); every successful
@@ -1044,6 +1050,22 @@ def nested_scenario(rng, i):
     return dict(s, ops=ops), plan
 
 
+CALL_EV = re.compile(r"(?:^| )c([0-9]+)\(")
+
+
+def body_owners(scn):
+    """function atom -> the one dataset whose body it is (atoms used by exactly one dataset definition and by no
+    call / step / function-value node)"""
+    env = scn["env"]
+    used = collections.Counter()
+    for t in cp.sub_exprs([scn["exprs"], [{k: v for k, v in d.items() if k != "fid"} for d in env.values()]]):
+        if isinstance(t, tuple) and len(t) >= 2 and t[0] in ("call", "pstep", "fnvalue") and isinstance(t[1], int):
+            used[t[1]] += 1
+    owners = collections.Counter(d["fid"] for d in env.values() if d.get("derived") is None and not d.get("abstract") and "fid" in d)
+    return {d["fid"]: dsid for dsid, d in env.items()
+            if d.get("derived") is None and not d.get("abstract") and "fid" in d and owners[d["fid"]] == 1 and not used[d["fid"]]}
+
+
 PLAIN = ([], None, None)
 STATS = {"ops_compared": 0, "same_sequence": 0, "same_multiset": 0}
 
@@ -1070,6 +1092,25 @@ def check_passthrough(scn, plan):
             where = "" if nest == "inside" else f" (handlers installed with nesting '{nest}' relative to labrea.cache.disabled()/labrea.logging.disabled())"
             out.append(dict(kind="bypass", desc="an operation ran outside a request seen by the installed handlers" + where + ": " + "; ".join(sorted(set(b))[:4]),
                             op_index=j, finding=None, scenario_repr=cp.dump_scn(scn), plan_repr=repr(plan)))
+            break
+    # a dataset's body never runs without an EvaluateRequest for that dataset (the object the user holds, or a
+    # with_options / with_default_options derivative of it that the user evaluates) having reached the handlers:
+    # otherwise no handler could substitute its result there
+    owners = body_owners(scn)
+    for j, (line, sv) in enumerate(zip(lines_h, seens)):
+        if not owners or "E" not in plan[j][0] or plan[j][1] is not None:
+            continue
+        ran = {int(x) for x in CALL_EV.findall(line.partition("|")[2])} & set(owners)
+        if not ran:
+            continue
+        asked = {base_ds(scn["env"], lab[1]) for k, lab in sv if k == "E" and lab is not None and lab[0] == "ds"}
+        STATS["dataset_bodies_run_under_E_recorder"] = STATS.get("dataset_bodies_run_under_E_recorder", 0) + len(ran)
+        lost = sorted(owners[f] for f in ran if owners[f] not in asked)
+        if lost:
+            out.append(dict(kind="unrequested", desc=f"the body of dataset {lost[0]} ran during the operation, but no EvaluateRequest for that dataset object (or for a "
+                            "with_options / with_default_options derivative of it) reached the installed recording handler: a handler substituting "
+                            "a result for that dataset by identity would not be honoured here",
+                            op_index=j, op=repr(scn["ops"][j])[:300], datasets=lost, finding=None, scenario_repr=cp.dump_scn(scn), plan_repr=repr(plan)))
             break
     for j, inf in enumerate(info):
         if inf["untyped"]:
@@ -1174,7 +1215,7 @@ def subst_cases(rng):
     ref = ("dataset", d)
     nxt = max(env) + 1
     nf = max(list(ft) + [100]) + 1
-    for f in range(nf, nf + 6):
+    for f in range(nf, nf + 7):
         ft[f] = ("tag",)
     shapes = []
     env[nxt] = dict(fid=nf, kwargs=[ref, g.leaf()])
@@ -1184,6 +1225,7 @@ def subst_cases(rng):
     shapes.append(("dispatch of a dataset", ("dataset", nxt + 1)))
     env[nxt + 2] = dict(fid=nf + 3, kwargs=[("dataset", nxt)], cache="none")
     shapes.append(("argument of an argument", ("dataset", nxt + 2)))
+    late = derived_shapes(env, nxt, nf, random.Random(lib.stable_hash([repr(base["exprs"]), d])))
     shapes.append(("switch dispatch", ("switch", ref, [(("j", 1), g.expr(1)), (("j", lit("a")), g.expr(1))], g.expr(1))))
     shapes.append(("switch branch", ("switch", g.chooser(1), [(("j", 1), ref), (("j", lit("a")), g.expr(1))], ref)))
     shapes.append(("coalesce member", ("coalesce", [ref, g.expr(1)])))
@@ -1194,8 +1236,38 @@ def subst_cases(rng):
     shapes.append(("cached consumer", ("cached", 70, ("call", nf + 4, [ref]))))
     for i, e in enumerate(base["exprs"]):
         shapes.append(("generated", e))
+    shapes += late       # appended last: the shapes above keep their indices and their random draws
     scn = dict(ftable=ft, env=env, exprs=[e for _, e in shapes], ops=[])
     return scn, [n for n, _ in shapes], d, pool
+
+
+def derived_shapes(env, nxt, nf, prng):
+    """the consumers of the target reached through the alternative constructors of a dataset: with_options /
+    with_default_options copies of them (single and chains), evaluated directly and as dependencies themselves.
+    The target is the dependency of the ORIGINAL dataset; the user holds the target, not whatever the copy refers to."""
+    out = []
+    k = nxt + 3
+    hows = ["with_options", "with_default_options"]
+    for how in hows:
+        env[k] = dict(derived=nxt, how=how, preset=gen.rand_preset(prng))
+        out.append((f"argument of a dataset evaluated through {how}", ("dataset", k)))
+        k += 1
+    cur = nxt
+    for how in prng.choice([hows + hows[:1], hows[::-1] + hows[1:], hows[:1] * 3, hows[1:] * 2]):
+        env[k] = dict(derived=cur, how=how, preset=gen.rand_preset(prng))
+        cur = k
+        k += 1
+    out.append(("argument of a dataset evaluated through a chain of with_options / with_default_options", ("dataset", cur)))
+    env[k] = dict(derived=nxt + 1, how=prng.choice(hows), preset=gen.rand_preset(prng))
+    out.append(("dispatch of a dataset evaluated through a derivative", ("dataset", k)))
+    k += 1
+    env[k] = dict(derived=nxt + 2, how=prng.choice(hows), preset=gen.rand_preset(prng))
+    out.append(("argument of an argument, evaluated through a derivative of the outer dataset", ("dataset", k)))
+    k += 1
+    out.append(("derivative of a consumer as a call argument", ("call", nf + 4, [("dataset", nxt + 3), ("dataset", cur)])))
+    env[k] = dict(fid=nf + 6, kwargs=[("dataset", nxt + 4)], cache="none")
+    out.append(("derivative of a consumer as the argument of another dataset", ("dataset", k)))
+    return out
 
 
 def uses_dataset(scn, e, dsid, seen=None):
@@ -1322,8 +1394,21 @@ def run(ctx):
         sub_corr = []          # (scenario, hspec) for the model
         tagged = 0
         srng = random.Random(ctx.seed * 31 + 19)
+        derived_pt = []
         for _ in range(m):
             scn, shapes, d, pool = subst_cases(rng)
+            # the same graphs under recording pass-through handlers: every operation on the with_options /
+            # with_default_options derivatives (and on what depends on them), all four methods
+            late = [i for i, sh in enumerate(shapes) if "deriv" in sh or "through" in sh]
+            pops, pplan = [], []
+            for i in late:
+                for meth in ["evaluate"] + srng.sample(["validate", "keys", "explain", "evaluate"], 1):
+                    pops.append((meth, i, srng.random() < 0.2, False, dict(srng.choice(pool))))
+                    pplan.append((list(KINDS) if srng.random() < 0.7 else ["E"] + srng.sample(KINDS[1:], 2), None, None))
+            i0 = srng.choice(late)
+            sel = [t for t, op in enumerate(pops) if op[1] == i0]
+            small = dict(scn, exprs=[scn["exprs"][i0]], ops=[(pops[t][0], 0) + tuple(pops[t][2:]) for t in sel])
+            derived_pt.append((dict(scn, ops=pops), pplan, small, [pplan[t] for t in sel]))
             for idx, shape in enumerate(shapes):
                 if not uses_dataset(scn, scn["exprs"][idx], d):
                     continue
@@ -1369,6 +1454,20 @@ def run(ctx):
                                                scenario_repr=cp.dump_scn(scn)))
                     one = dict(scn, exprs=[scn["exprs"][idx]], ops=[("evaluate", 0, cc2, lc2, o)])
                     sub_corr.append((one, [([], d, val, nest)], det["line"]))
+        if derived_pt:
+            # the model runs ONE derivative per graph (the terms of whole graphs of nested derivatives are too large to
+            # evaluate within the quick budget); the implementation-only clauses run on all of them
+            outs3 = ctx.coq_eval("Derived_C18", REQ, table_prelude, [coq_scenario_rq(s, p) for _, _, s, p in derived_pt], shard=3)
+            for (s_all, p_all, s, p), out in zip(derived_pt, outs3):
+                v, _, _ = check_passthrough(s_all, p_all)
+                violations += v
+                oracle_checks += 2 * len(s_all["ops"])
+                v, lines_h, seens = check_passthrough(s, p)
+                mm, compared = compare_with_model(s, p, lines_h, seens, out)
+                if mm and len(mism) < 5:
+                    mism.append(mm)
+                ops += len(s["ops"])
+                tokens += compared
         if sub_corr:
             outs2 = ctx.coq_eval("Subst_C18", REQ, table_prelude, [coq_scenario_rq(s, h) for s, h, _ in sub_corr], shard=40)
             for (s, h, line), out in zip(sub_corr, outs2):
@@ -1398,7 +1497,10 @@ def run(ctx):
                 "handlers recorded >= 20 requests on user-visible nodes of >= 4 kinds in the history; distinct by hash of the scenario. "
                 "Substitution: a dataset of a random graph used as argument / dispatch / switch dispatch and branch / coalesce member / mapped "
                 "expression / option default / call argument / inside a cached consumer, fresh graphs, value compared with the graph in which "
-                "the dataset is the constant. Nesting stream: operations inside labrea.cache.disabled() / labrea.logging.disabled() with the "
+                "the dataset is the constant; also with the consumer reached through with_options / with_default_options derivatives (single, "
+                "chains of 3, a derivative of the dispatching / of the outer dataset, derivatives as call arguments and as arguments of another "
+                "dataset), and those graphs under recording pass-through handlers (all four methods; clause: a dataset body that runs was asked "
+                "for as an EvaluateRequest on that dataset object or a derivative of it). Nesting stream: operations inside labrea.cache.disabled() / labrea.logging.disabled() with the "
                 "recording or substituting handlers installed outside, inside or between them.",
         "samples": samples,
         "traces_validated_against_impl": ops + len(sub_corr),
